@@ -6,13 +6,16 @@ wt=/var/tmp/seed-confirm
 export CARGO_NET_OFFLINE=true CARGO_TARGET_DIR=/var/tmp/seed-confirm-target
 [ -d $wt ] || git -C /repo worktree add --detach $wt HEAD -q
 cd $wt && git checkout -q --detach $(git -C /repo rev-parse HEAD) && git checkout -q -- . && git clean -fdq
-out=/verif/seeded/$name; mkdir -p $out
+out=/verif/seeded/$name; mkdir -p $out; tmp=/var/tmp/seed-confirm-logs/$name; mkdir -p $tmp
 git apply $dir/patch.diff || { echo "$name: PATCH DOES NOT APPLY"; exit 1; }
-cargo test --workspace --no-fail-fast --offline > $out/suite_with_patch.log 2>&1
-suite=$(grep -E "^test result" $out/suite_with_patch.log | awk '{p+=$4; f+=$6} END {print p" passed "f" failed"}')
+cargo test --workspace --no-fail-fast --offline > $tmp/suite_with_patch.log 2>&1
+suite=$(grep -E "^test result" $tmp/suite_with_patch.log | awk '{p+=$4; f+=$6} END {print p" passed "f" failed"}')
 sh -c "$demo_apply" >/dev/null 2>&1
-sh -c "$demo_cmd" > $out/demo_with_patch.log 2>&1; with=$?
+sh -c "$demo_cmd" > $tmp/demo_with_patch.log 2>&1; with=$?
 git apply -R $dir/patch.diff
-sh -c "$demo_cmd" > $out/demo_without_patch.log 2>&1; without=$?
+sh -c "$demo_cmd" > $tmp/demo_without_patch.log 2>&1; without=$?
 git checkout -q -- . && git clean -fdq
+grep -E "^test result|FAILED|failed" $tmp/suite_with_patch.log > $out/suite_with_patch.log
+tail -30 $tmp/demo_with_patch.log > $out/demo_with_patch.log
+tail -30 $tmp/demo_without_patch.log > $out/demo_without_patch.log
 echo "$name: suite_with_patch=[$suite] demo_with_patch_exit=$with demo_without_patch_exit=$without"
